@@ -479,11 +479,14 @@ def model_has_nan(im, mo):
 
 
 def same(im, mo, pow_domain=False):
-    """pow_domain: a NaN of the model (x**y with x < 0, outside the domain of Num.pow) matches any value"""
+    """pow_domain: a NaN on either side matches any value.  x**y with x < 0 is outside the domain Num.pow is
+    specified for (torch gives a number for integer y, the model NaN); and under power dependence a base within a few
+    ulp of 0 can have different signs in the implementation and in the model (whose exp/ln differ from libm in the last
+    bits), so that only one side is NaN"""
     if is_f(im):
         if not (isinstance(mo, list) and len(mo) == 3 and all(isinstance(z, int) for z in mo)):
             return False
-        if pow_domain and mo[0] == 3:
+        if pow_domain and (mo[0] == 3 or im[1] == 3):
             return True
         return F.close(fval(im), F.dec_float(mo))
     if isinstance(im, list):
@@ -521,7 +524,7 @@ def compare(case, ti, tm):
             return {"first_diff_step": j, "op": op, "impl": rec[0], "model": b[0]}, False
         a = compact(op, rec)
         nan_i, nan_m = has_nan(a), model_has_nan(a, b)
-        if not same(a, b, pow_domain=(nan_m and uses_pow(case))):
+        if not same(a, b, pow_domain=((nan_m or nan_i) and uses_pow(case))):
             return {"first_diff_step": j, "op": op, "impl": a, "model": b}, False
         if nan_m:
             return None, True
@@ -759,7 +762,7 @@ def dec_t(t):
 class Oracle:
     """replays the operations against the property statement and judges the implementation's trace"""
 
-    def __init__(self, case, report_stale):
+    def __init__(self, case, report_stale, report_float_nan=False):
         self.case = case
         self.P = {p[0]: list(map(float, p[2])) for p in case["params"]}
         self.U = None
@@ -767,6 +770,8 @@ class Oracle:
         self.stale_obs = 0
         self.mode, self.stale_hits = "fresh", 0
         self.report_stale = report_stale
+        self.float_nan_obs = 0
+        self.report_float_nan = report_float_nan
         self.checks = Counter()
 
     def bad(self, step, kind, **kw):
@@ -847,6 +852,18 @@ class Oracle:
         if len(d) != len(before):
             raise Unjudged
         exp = [x + y for x, y in zip(before, d)]
+        rc0 = range_claim(a)
+        if rc0 is not None and any(v != v for v in after) and not any(v != v for v in before):
+            # binary64 only (the real-number theorem scaled_power_stays_in_range holds): rounding carried the parameter
+            # a few ulp beyond a limit, the next base of the fractional power is negative, the parameter becomes NaN
+            mx0, mn0, cap0 = rc0
+            eps0 = 1e-12 * (1 + abs(mx0) + abs(mn0))
+            m0 = len(before)
+            mags = (p if p is not None else [0.0] * m0) + (n if n is not None else [0.0] * m0)
+            if all(mn0 - eps0 <= x <= mx0 + eps0 for x in before) and all(0 <= v <= cap0 * (1 + 1e-12) for v in mags):
+                self.float_nan_obs += 1
+                if self.report_float_nan:
+                    self.bad(step, "float_range_nan", param=i, before=before, after=after, limits=[mx0, mn0], bind=a.bind)
         if any(v != v for v in exp) or any(v != v for v in after):
             raise Unjudged
         self.checks["apply_value"] += 1
@@ -859,10 +876,10 @@ class Oracle:
         rc = range_claim(a)
         if rc is not None:
             mx, mn, cap = rc
-            ok_in = all(mn <= x <= mx for x in before) and all(0 <= v <= cap for v in pz + nz)
+            eps = 1e-12 * (1 + abs(mx) + abs(mn))
+            ok_in = all(mn - eps <= x <= mx + eps for x in before) and all(0 <= v <= cap * (1 + 1e-12) for v in pz + nz)
             if ok_in:
                 self.checks["range_invariant"] += 1
-                eps = 1e-12 * (1 + abs(mx) + abs(mn))
                 if not all(mn - eps <= y <= mx + eps for y in after):
                     self.bad(step, "range_invariant", param=i, before=before, after=after, limits=[mx, mn])
         mx, mn = sharp_limits(a)
@@ -999,8 +1016,8 @@ class Oracle:
             self.resync(snap)
 
 
-def oracle_case(case, trace, report_stale=False):
-    o = Oracle(case, report_stale)
+def oracle_case(case, trace, report_stale=False, report_float_nan=False):
+    o = Oracle(case, report_stale, report_float_nan)
     for j, (op, (out, snap)) in enumerate(zip(case["ops"], trace)):
         o.step(j, op, out, snap)
         if has_nan(snap):
@@ -1034,11 +1051,17 @@ def is_nontrivial(case):
     return len(case["ops"]) >= 4 and "add" in kinds and bool(kinds & {"update", "updatesome", "apply"})
 
 
-def stale_listed():
+def listed(kind):
+    """a behaviour outside / at the edge of the property statement is reported as an oracle failure (and then printed
+    as KNOWN-FINDING) only once known_findings.json lists it; until then it is counted in the evidence"""
     for k in F.load_known().get("findings", []):
-        if k.get("property") == ID and (k.get("match") or {}).get("kind") == "stale_reduction_cache":
+        if k.get("property") == ID and (k.get("match") or {}).get("kind") == kind:
             return True
     return False
+
+
+def stale_listed():
+    return listed("stale_reduction_cache")
 
 
 def run(ctx):
@@ -1060,8 +1083,12 @@ def run(ctx):
     # the executable instance is no dependency of the obligations: (re)build it against the kernels just translated
     with F.BuildLock():
         F.make(["C10/UpdaterExec.vo"], timeout=600)
+        # informational binary64 witness of the float_range_nan behaviour (not an obligation; see C10/FloatWitness.v)
+        witness_ok, _ = F.make(["C10/FloatWitness.vo"], timeout=300)
     model = F.eval_terms(ID, HEADER, [q_case(c) for c in cases], shard=max(8, len(cases) // (2 * F.JOBS) + 1))
     report_stale = stale_listed()
+    report_nan = listed("float_range_nan")
+    float_nan_obs = 0
     mismatches, oracle_fail = [], []
     checks = Counter()
     nan_cut = 0
@@ -1074,9 +1101,10 @@ def run(ctx):
             nan_cut += bool(cut)
             if d is not None:
                 mismatches.append({"case": c, "detail": d})
-        o = oracle_case(c, ti, report_stale)
+        o = oracle_case(c, ti, report_stale, report_nan)
         checks.update(o.checks)
         stale_obs += o.stale_obs
+        float_nan_obs += o.float_nan_obs
         if o.fail is not None:
             oracle_fail.append({"case": c, "detail": o.fail, "signature": {"kind": o.fail["kind"]}})
     for i0, i1 in variants:
@@ -1102,6 +1130,8 @@ def run(ctx):
         "oracle_checks": dict(checks),
         "comparisons_cut_at_nan": nan_cut,
         "stale_reduction_cache_observations": stale_obs,
+        "float_range_nan_observations": float_nan_obs,
+        "float_range_nan_witness_checked_in_coq": bool(witness_ok),
         "samples": cases[:2],
         "mismatches": mismatches, "oracle_failures": oracle_fail,
         "traces_validated_against_impl": len(cases) - len(mismatches),
@@ -1122,7 +1152,7 @@ def _fails(case):
         t = F.run_impl(IMPL, {"cases": [a, b]})
         return perm_compare(a, t[0], t[1])
     t = F.run_impl(IMPL, {"cases": [case]})[0]
-    return oracle_case(case, t, stale_listed()).fail
+    return oracle_case(case, t, stale_listed(), listed("float_range_nan")).fail
 
 
 def minimise(case, rounds=12):
@@ -1143,7 +1173,7 @@ def minimise(case, rounds=12):
         tr = F.run_impl(IMPL, {"cases": [dict(case, ops=c) for c in cands]})
         better = None
         for c, t in zip(cands, tr):
-            if oracle_case(dict(case, ops=c), t, stale_listed()).fail is not None:
+            if oracle_case(dict(case, ops=c), t, stale_listed(), listed("float_range_nan")).fail is not None:
                 better = c
                 break
         if better is None:
